@@ -19,6 +19,8 @@ type c05Params struct {
 	seed, rsize, nregs, nin, nout, nlines, nmacros int
 	entryLater                                     bool // the entry label is not on the first instruction
 	doubleMacro                                    bool // two macro invocations in a row
+	entryDirAt                                     int  // number of body lines written before the entry directive (0: it is the first line)
+	withData                                       bool // the CP also has a ROM data section (not read by the code)
 }
 
 func c05Source(p c05Params) string {
@@ -106,15 +108,23 @@ func c05Source(p c05Params) string {
 		body = append(body, fmt.Sprintf("r2o r%d, o%d", i%p.nregs, i))
 	}
 	body = append(body, "j "+labs[r.Intn(len(labs))])
-	sb.WriteString("%section prog .romtext\n        entry _start\n")
+	sb.WriteString("%section prog .romtext\n")
 	for i, l := range body {
+		if i == p.entryDirAt {
+			sb.WriteString("        entry _start\n") // the directive may stand anywhere in the section
+		}
 		for _, name := range labAt[i] {
 			sb.WriteString(name + ":\n")
 		}
 		sb.WriteString("        " + l + "\n")
 	}
 	// labels placed past the last body line would denote nothing: the family keeps them inside
-	sb.WriteString("%endsection\n%meta cpdef  cpu   romcode: prog, execmode: ha\n")
+	if p.withData {
+		// a data section with a one-cell and a three-cell variable: the ROM holds code then data
+		sb.WriteString("%endsection\n%section data1 .romdata\n        answer db 0x2a\n        table db 0x05, 0x06, 0x07\n%endsection\n%meta cpdef  cpu   romcode: prog, romdata: data1, execmode: ha\n")
+	} else {
+		sb.WriteString("%endsection\n%meta cpdef  cpu   romcode: prog, execmode: ha\n")
+	}
 	for i := 0; i < p.nin; i++ {
 		fmt.Fprintf(&sb, "%%meta ioatt  in%d   cp: cpu, index:%d, type:input\n%%meta ioatt  in%d   cp: bm, index:%d, type:input\n", i, i, i, i)
 	}
@@ -148,6 +158,19 @@ func c05Wired(rsize, s0, d0 int, inputFirst bool, a, b int) string {
 	return sb.String()
 }
 
+// c05ParamsFor: the parameters of the i-th source of the family
+func c05ParamsFor(i int) c05Params {
+	pr := rand.New(rand.NewSource(int64(Seed()*7919 + i)))
+	p := c05Params{seed: Seed()*100000 + i, rsize: []int{8, 16}[pr.Intn(2)], nregs: 2 + pr.Intn(3), nin: pr.Intn(3), nout: 1 + pr.Intn(2),
+		nlines: 6 + pr.Intn(9), nmacros: pr.Intn(3), entryLater: i%6 == 5}
+	p.doubleMacro = p.nmacros > 0 && i%6 == 2
+	if i%5 == 3 && !p.entryLater {
+		p.entryDirAt = 1 + pr.Intn(3)
+	}
+	p.withData = i%4 == 1
+	return p
+}
+
 func C05(tier string) int {
 	t0 := time.Now()
 	h := Harness{File: "c05.go", Extra: []string{"lib_emitted.go"}, Pkg: "pkg/bondmachine"}
@@ -166,16 +189,13 @@ func C05(tier string) int {
 	rejected := 0
 	var rejections []string
 	for i := 0; i < n && len(errs) == 0; i++ {
-		pr := rand.New(rand.NewSource(int64(Seed()*7919 + i)))
-		p := c05Params{seed: Seed()*100000 + i, rsize: []int{8, 16}[pr.Intn(2)], nregs: 2 + pr.Intn(3), nin: pr.Intn(3), nout: 1 + pr.Intn(2),
-			nlines: 6 + pr.Intn(9), nmacros: pr.Intn(3), entryLater: i%6 == 5}
-		p.doubleMacro = p.nmacros > 0 && i%6 == 2
+		p := c05ParamsFor(i)
 		text := c05Source(p)
 		f := filepath.Join(work, fmt.Sprintf("s%d.basm", i))
 		os.WriteFile(f, []byte(text), 0o644)
 		out, err := Native("basm", f)
-		name := fmt.Sprintf("basm source #%d (Rsize=%d, %d registers, %d inputs, %d outputs, %d lines, %d macros, entry on first instruction=%v, consecutive macro calls=%v)",
-			i, p.rsize, p.nregs, p.nin, p.nout, p.nlines, p.nmacros, !p.entryLater, p.doubleMacro)
+		name := fmt.Sprintf("basm source #%d (Rsize=%d, %d registers, %d inputs, %d outputs, %d lines, %d macros, entry on first instruction=%v, consecutive macro calls=%v, entry directive after %d lines, data section=%v)",
+			i, p.rsize, p.nregs, p.nin, p.nout, p.nlines, p.nmacros, !p.entryLater, p.doubleMacro, p.entryDirAt, p.withData)
 		if err != nil {
 			errs = append(errs, name+": "+err.Error())
 			continue
@@ -250,7 +270,7 @@ func C05(tier string) int {
 		Configs:  FilterConfigs(cfgs),
 		Assumptions: []string{
 			"translation validation per source: the real basm front-end (parser, all passes, matcher/chooser, requirement inference, Assembler2BondMachine) is RUN NATIVELY on each source of a generated family - it is not encoded (maps of interfaces, regexp-driven passes, a requirement engine of goroutines) - and the solver decides, per emitted machine, that simulating it (bondmachine.VM.Step, procbuilder.VM.Step and the opcodes' Simulate, executed symbolically) yields tick by tick the external outputs, and at the horizon the registers, of a direct interpretation of the source text, FOR ALL values of the external inputs. The program space is sampled; the input space is quantified",
-			"source family: one CP; romtext section; labels on their own lines (2-4 plus the entry label, several labels may share a line); entry directive; forward/backward j and jz; 0-2 macros without arguments, invoked 0 or more times; mov with decimal/0x/0b/0d literals below 32 (larger ones are rejected since the chooser takes rsets5), mov register-register, inc/dec/add/clr/nop, i2r/r2o; register sizes 8 and 16; 2-4 registers, 0-2 inputs, 1-2 outputs; one source in six has its entry label on a later instruction, one in twelve has two macro calls in a row",
+			"source family: one CP; romtext section; labels on their own lines (2-4 plus the entry label, several labels may share a line); entry directive; forward/backward j and jz; 0-2 macros without arguments, invoked 0 or more times; mov with decimal/0x/0b/0d literals below 32 (larger ones are rejected since the chooser takes rsets5), mov register-register, inc/dec/add/clr/nop, i2r/r2o; register sizes 8 and 16; 2-4 registers, 0-2 inputs, 1-2 outputs; one source in six has its entry label on a later instruction, one in six has two macro calls in a row, one in five has its entry directive after 1-3 instructions, one in four also has a ROM data section (a one-cell and a three-cell variable, not read by the code)",
 			"reference: the documented meaning of the source form (a label denotes the instruction after it; execution starts at the entry label; a macro call stands for its body; mov loads the value the literal denotes or copies a register; one instruction per tick); the per-instruction effect is the ISA's (inc/dec/add wrap at the register size)",
 			"environment: external inputs constant and valid from tick 0, outputs acknowledged at once; horizon 2*lines+6 ticks from reset (registers zero)",
 			"second family: two CPs joined by two handshaked links whose output and input indices differ (all four index pairings, consuming endpoint declared first or second), straight-line programs that park in a self-loop, one symbolic external input; compared at the horizon (60 ticks) with a reference in which every CP's source is interpreted on its own and a link carries the value its producer wrote to its consumer: registers of both CPs and the external output",
